@@ -215,6 +215,77 @@ func metaRoundTrip(i int) string {
 	if p := check("in memory", m.ReadOnly()); p != "" {
 		return p
 	}
+	// a value that was read stays what it was while other values are read (no buffer shared between reads)
+	{
+		m2 := meta.NewMeta()
+		ptA, ptB := append([]byte("first value - "), pt...), append([]byte("second value, other key - "), pt...)
+		if m2.AddEncrypted("a", ptA, key) != nil || m2.AddEncrypted("b", ptB, other) != nil {
+			return "AddEncrypted failed for two values under two keys"
+		}
+		gotA, err := m2.ReadOnly().GetEncryptedBytes("a", key)
+		if err != nil {
+			return "GetEncryptedBytes: " + err.Error()
+		}
+		keep := append([]byte(nil), gotA...)
+		for r := 0; r < 3; r++ {
+			if _, err := m2.ReadOnly().GetEncryptedBytes("b", other); err != nil {
+				return "GetEncryptedBytes (second value): " + err.Error()
+			}
+			_, _ = m2.ReadOnly().GetEncryptedBytes("b", key) // a refused read
+		}
+		if !bytes.Equal(gotA, keep) || !bytes.Equal(gotA, ptA) {
+			return "a value returned by GetEncryptedBytes changed when another value was read afterwards"
+		}
+	}
+	// through the token options: the same key rules, one fresh ciphertext per token, nothing silently dropped
+	{
+		k := keyFor("ed25519", 0)
+		aud := keyFor("ed25519", 1)
+		for _, bad := range [][]byte{nil, {}, key[:31], append(append([]byte(nil), key...), 1), append(append([]byte(nil), key...), key...), make([]byte, 32)} {
+			if _, err := delegation.Root(k.did, aud.did, command.Top(), nil, delegation.WithEncryptedMetaString("s", "v", bad)); err == nil {
+				return fmt.Sprintf("delegation.WithEncryptedMetaString accepts a key of %d bytes (nil: %v, all zero: %v)", len(bad), bad == nil, len(bad) == 32)
+			}
+			if _, err := delegation.Root(k.did, aud.did, command.Top(), nil, delegation.WithEncryptedMetaBytes("s", []byte("v"), bad)); err == nil {
+				return fmt.Sprintf("delegation.WithEncryptedMetaBytes accepts a key of %d bytes", len(bad))
+			}
+			if _, err := invocation.New(k.did, aud.did, command.Top(), nil, invocation.WithEncryptedMetaString("s", "v", bad)); err == nil {
+				return fmt.Sprintf("invocation.WithEncryptedMetaString accepts a key of %d bytes", len(bad))
+			}
+			if _, err := invocation.New(k.did, aud.did, command.Top(), nil, invocation.WithEncryptedMetaBytes("s", []byte("v"), bad)); err == nil {
+				return fmt.Sprintf("invocation.WithEncryptedMetaBytes accepts a key of %d bytes", len(bad))
+			}
+		}
+		opt := delegation.WithEncryptedMetaString("s", string(pt), key)
+		d1, e1 := delegation.Root(k.did, aud.did, command.Top(), nil, opt)
+		d2, e2 := delegation.Root(k.did, aud.did, command.Top(), nil, opt)
+		if e1 != nil || e2 != nil {
+			return "one option value used for two delegations is refused"
+		}
+		c1, _ := d1.Meta().GetBytes("s")
+		c2, _ := d2.Meta().GetBytes("s")
+		if bytes.Equal(c1, c2) {
+			return "one option value used for two tokens stored the same ciphertext (same nonce) in both"
+		}
+		iopt := invocation.WithEncryptedMetaBytes("s", pt, key)
+		i1, e1 := invocation.New(k.did, aud.did, command.Top(), nil, iopt)
+		i2, e2 := invocation.New(k.did, aud.did, command.Top(), nil, iopt)
+		if e1 == nil && e2 == nil {
+			c1, _ := i1.Meta().GetBytes("s")
+			c2, _ := i2.Meta().GetBytes("s")
+			if bytes.Equal(c1, c2) {
+				return "one option value used for two invocations stored the same ciphertext (same nonce) in both"
+			}
+		}
+		// a key used twice: either the constructor refuses, or the encrypted value is there and readable
+		if d, err := delegation.Root(k.did, aud.did, command.Top(), nil, delegation.WithMeta("s", "plain"), delegation.WithEncryptedMetaString("s", string(pt), key)); err == nil {
+			if got, err := d.Meta().GetEncryptedString("s", key); err != nil || got != string(pt) {
+				if plain, perr := d.Meta().GetString("s"); perr != nil || plain != "plain" {
+					return "a duplicate metadata key was accepted and neither value is readable"
+				}
+				return "an encrypted value added under an existing metadata key was silently dropped (the constructor reported no error)"
+			}
+		}
+	}
 	// through sealed tokens
 	k := keyFor("ed25519", 0)
 	aud := keyFor("ed25519", 1)
